@@ -98,8 +98,6 @@ def run_sequence(env, sink, evs, G, L, d, space, seq):
         if got != exp:
             msgs.append("execution %d (delay %d) carried allocation %r, expected the decision submitted %d steps earlier: %r"
                         % (j, d, got, d, exp))
-        if infos[j].get("_rebalancing") is not tr[j]:
-            msgs.append("info['_rebalancing'] of step %d is not the recorded execution" % j)
         # pricing: last quote stamped <= G[j] + latency, per contract
         bound = G[j] + timedelta(seconds=L)
         for trade in tr[j].trades:
